@@ -17,14 +17,14 @@ def run(rep, tier):
     rep.trust(*common.PY_TRUST)
     E = common.eff(rep)
     ix = E.ix
-    c07_1(rep, ix)
+    common.guarded(rep, "C07.1", c07_1, rep, ix)
     live = sorted(g for g in E.summ[INCLUDE].reads_globals if g in E.written_globals)
     rep.check(not live, "C07.1", ix.site(ix.func(INCLUDE)), "exitInclude consults no module-level state that is written anywhere in the package (an include is resolved from the file system on every load)",
               "reads %s" % live, key="include|globals")
-    c07_2(rep, ix, get_ord(rep))
-    c07_3(rep, E, ix)
-    c07_4(rep, ix)
-    c07_5(rep, ix)
+    common.guarded(rep, "C07.2", c07_2, rep, ix, get_ord(rep))
+    common.guarded(rep, "C07.3", c07_3, rep, E, ix)
+    common.guarded(rep, "C07.4", c07_4, rep, ix)
+    common.guarded(rep, "C07.5", c07_5, rep, ix)
     # a template include is instantiated for the call (`bb(**kwargs)`): the instantiation rules are part of "equals inlining it"
     from . import c04
     sites = common.guarded(rep, "C04.3", c04.c04_3, rep, ix)
